@@ -96,10 +96,14 @@ class H3Ops:
                 ring = h3.k_ring(search_geoid, current_k)
 
                 # get all entities in this ring
+                # distance ties keep the first entity met: visit cells and entities in sorted order so
+                # that the result does not depend on set iteration
                 found = (
                     entity
-                    for cell in ring
-                    for entity in cls.get_entities_at_cell(cell, entity_search, entities)
+                    for cell in sorted(ring)
+                    for entity in sorted(
+                        cls.get_entities_at_cell(cell, entity_search, entities), key=lambda e: e.id
+                    )
                 )
 
                 best_dist_km = 1000000.0
